@@ -24,6 +24,9 @@ import cli
 
 PREFIXES = ["SPDX-FileCopyrightText:", "SPDX-FileCopyrightText: (C)", "SPDX-FileCopyrightText: ©", "SPDX-FileCopyrightText: Copyright",
             "Copyright", "Copyright (C)", "Copyright ©", "©"]
+#: --copyright-prefix value -> the text it stands for (documentation of the option)
+OPTION_PREFIX = {"spdx": "SPDX-FileCopyrightText:", "spdx-c": "SPDX-FileCopyrightText: (C)", "spdx-symbol": "SPDX-FileCopyrightText: ©", "string": "Copyright",
+                 "string-c": "Copyright (C)", "string-symbol": "Copyright ©", "symbol": "©"}
 #: (a, b) -> the range a..b as people write it; "hyphen" forms are the ones the tool documents
 RANGES = {
     "hyphen": "%d-%d", "hyphen-spaced": "%d - %d", "hyphen-left": "%d -%d", "hyphen-right": "%d- %d",
@@ -247,8 +250,8 @@ class DashYearsStream(_Runs):
 class MergeManyStream(_Runs):
     name = "mergemany"
     rule = ("real `reuse annotate --merge-copyrights` (in-process CLI; 1 in 6 without the option) over 2-5 files in ONE invocation: each file "
-            "has no header (with or without code), or a header naming the requested holder with another year, another holder, both, or "
-            "only a licence; py / c / html / tex / hs files and .txt files whose header lives in FILE.license, mixed; random file names "
+            "has no header (with or without code), or a header naming the requested holder with another year, another holder, both, "
+            "only a licence, or exactly the requested notice; py / c / html / tex / hs files and .txt files whose header lives in FILE.license, mixed; random file names "
             "(the tool walks a set of paths: every order occurs), named one by one or through --recursive; oracle per file as in "
             "`dashyears` (reader-independent): what the file declared before plus the request; non-trivial = distinct (pattern of files "
             "with / without header in name order, kinds, merge, recursive)")
@@ -262,13 +265,15 @@ class MergeManyStream(_Runs):
             taken, files = set(), []
             for _i in range(n):
                 kind = rng.choice(list(KINDS))
-                shape = rng.choice(["none", "none", "none-empty", "same", "other", "both", "licence"])
+                shape = rng.choice(["none", "none", "none-empty", "same", "other", "both", "licence", "exact"])
                 f = {"kind": kind, "notices": [], "lic": [], "con": [], "shape": shape}
                 if shape == "none-empty" and kind != "txt" and not recursive:      # (the --recursive walk leaves out empty files)
                     f["code"] = False
                 if shape in ("same", "both"):
                     a = rng.randint(1995, 2012)
                     f["notices"].append([rng.choice(PREFIXES), rng.choice(["%d" % a, "%d-%d" % (a, a + 2), "%d - %d" % (a, a + 3)]), h])
+                if shape == "exact":      # the file already holds the requested notice character for character (filled in below)
+                    f["notices"].append(None)
                 if shape in ("other", "both"):
                     f["notices"].append([rng.choice(PREFIXES), rng.choice(["2003", "2001-2004", None]), rng.choice([x for x in HOLDERS if x != h])])
                 if shape in ("licence", "same") or (shape != "none" and shape != "none-empty" and rng.random() < 0.5):
@@ -279,7 +284,10 @@ class MergeManyStream(_Runs):
                 recursive = False      # (--recursive would also pick up the .license files of the others: keep the walk to the named files)
             if recursive and any(f["kind"] == "txt" for f in files):
                 recursive = False
-            yield {"files": files, "req": request(rng, h, year), "merge": rng.random() < 5 / 6, "recursive": recursive}
+            req = request(rng, h, year)
+            for f in files:
+                f["notices"] = [[OPTION_PREFIX[req.get("prefix") or "spdx"], str(year), h] if n is None else n for n in f["notices"]]
+            yield {"files": files, "req": req, "merge": rng.random() < 5 / 6, "recursive": recursive}
 
     def nontrivial(self, case, impl_out):
         if not impl_out.startswith("0|"):
